@@ -158,6 +158,21 @@ Theorem apply_value_tensor :
 Proof. exact apply_R_value_tensor. Qed.
 Print Assumptions apply_value_tensor.
 
+(* the same for every flat index i of the tensor: its coefficient is (i / inner) mod F,
+   i.e. the statistics are broadcast along the chosen axis *)
+Theorem apply_value_flat :
+  forall (nv : bool) (F : nat) (calls : list (tensor R * Z)) (t : tensor R) (axis : Z) (ip : bool)
+         (i : nat) (d : R),
+    Forall (good_call RNum F) calls -> calls <> [] -> good_arg RNum F t axis ->
+    takes_tensor_path (shape t) = true -> (i < length (data t))%nat ->
+    let vs := flat_map (vectors_of_call RNum) calls in
+    let f := ((i / v_inner (view_of t axis)) mod F)%nat in
+    exists out, apply_R nv (acc_all RNum None calls) t axis ip = Ok out /\
+      nth i (a_vals out) d
+      = standardised nv (nth i (data t) 0%R) (col_mean RNum vs f) (col_var RNum vs f).
+Proof. exact apply_R_value_flat. Qed.
+Print Assumptions apply_value_flat.
+
 Theorem apply_value_vector :
   forall (nv : bool) (F : nat) (calls : list (tensor R * Z)) (t : tensor R) (axis : Z) (ip : bool)
          (f : nat) (d : R),
